@@ -19,17 +19,20 @@ RULE = ("2-4 (thorough: up to 16) caller threads - real pthreads of which the si
         "('io'), or 1-30 forced pre-emptions at instrumented basic-block edges of the repository code placed after a counting pass ('edge'). Oracle: no crash/sanitizer report/exit/deadlock/step-budget overrun; "
         "handles issued as new pairwise distinct; interval semantics for searches and reads during the run; at quiescence objects = created - destroyed with every acknowledged change present, also after a restart; "
         "mutex discipline of the library as seen by the callbacks. Distinct+non-trivial: (locking mode, policy, stratum, distinct context-switch sequence).")
-PROBES = ["runs_with_switches", "edge_preemptions", "mutex_blocked", "mutex_locks", "handles_checked", "quiescence_checked", "restart_checked", "overlapping_calls", "stratum_close_open", "stratum_logout_private", "stratum_create_search", "stratum_destroy_read", "stratum_same_object", "stratum_slots", "stratum_crypto", "stratum_session_objects"]
+PROBES = ["runs_with_switches", "edge_preemptions", "mutex_blocked", "mutex_locks", "handles_checked", "quiescence_checked", "restart_checked", "overlapping_calls", "stratum_close_open", "stratum_logout_private", "stratum_create_search", "stratum_destroy_read", "stratum_same_object", "stratum_slots", "stratum_crypto", "stratum_session_objects", "stratum_last_close_login", "login_state_after_own_login_checked", "parks_fired"]
 DEATH_IS_VIOLATION = ("died.exit", "died.sanitizer", "died.signal", "died.hang", "died.deadlock")
 READ_T = c15.READ_T
 
-STRATA = ["mixed", "close_open", "logout_private", "create_search", "destroy_read", "same_object", "slots", "crypto", "session_objects"]
+STRATA = ["mixed", "close_open", "logout_private", "create_search", "destroy_read", "same_object", "slots", "crypto", "session_objects", "last_close_login"]
 
 def gen(seed, tier, index):
     g = G(seed, "C18", profile="mthread"); r = g.r
     nth = r.choice([2, 2, 3, 3, 4]) if tier == "quick" else r.choice([2, 3, 4, 6, 8, 12, 16])
     stratum = STRATA[index % len(STRATA)]
-    policy = "edge" if index % 3 == 2 else "io"
+    policy = ["io", "park", "edge"][index % 3]
+    if stratum == "last_close_login":
+        # the window needs whole foreign calls inside one call: long pre-emptions in two runs out of three; two threads keep "the last session" frequent
+        nth = 2; policy = "io" if index % 3 == 0 else "park"
     g.knobs["policy"] = policy
     g.knobs["switch_p"] = r.choice([0.05, 0.1, 0.2, 0.35, 0.5]) if policy == "io" else r.choice([0.0, 0.02, 0.1])
     g.knobs["short_io"] = False
@@ -59,6 +62,7 @@ def gen(seed, tier, index):
         hk = g.new_obj()
         ht, _ = objs.make("generic", hk, r, token=False, private=False, vlen=48)
         g.emit({"f": "C_CreateObject", "s": s_, "tmpl": ht, "out": hk}, 0); hkey_of[tk] = hk
+    tok3 = g.setup_token(0, so_pin=so, upin=up) if stratum == "last_close_login" else None      # a token on which NO long-lived session exists
     for t in range(nth): g.emit({"act": "barrier"}, t)
     own = {t: [] for t in range(nth)}
     def op_set(t, ref, attr):
@@ -86,7 +90,24 @@ def gen(seed, tier, index):
         s = sess[t]; shared = shared_of[on_tok(t)]; keyref = keyref_of[on_tok(t)]
         for i in range(n):
             x = r.random()
-            if stratum == "close_open" and x < 0.7:
+            if stratum == "last_close_login" and x < 0.8:
+                # closing the LAST session of a token (which logs the token out) || another thread opening a session there and logging in: once a thread's own
+                # C_Login has returned CKR_OK, and while its own session stays open, nothing the other threads do here (they only open and close sessions, and a
+                # close is "the last one" only if no other session exists) can log the token out again - whatever the schedule
+                s3 = g.new_sess()
+                if t != 1:      # exactly ONE thread logs in and out on this token (a second one's C_Logout would legitimately undo the first one's login)
+                    g.emit({"f": "C_OpenSession", "slot": tok3, "flags": r.choice([RW, RO]), "out": s3, "lcl": True}, t)
+                    g.emit({"f": "C_CloseSession", "s": s3, "lcl": "close_maybe_last"}, t)
+                else:
+                    g.emit({"f": "C_OpenSession", "slot": tok3, "flags": RW, "out": s3, "lcl": True}, t)
+                    g.emit({"f": "C_Login", "s": s3, "user": K.CKU_USER, "pin": up.hex(), "lcl": "login"}, t)
+                    for _ in range(r.randint(1, 3)): g.emit({"f": "C_GetSessionInfo", "s": s3, "lcl": "info"}, t)
+                    if r.random() < 0.5:
+                        ref = g.new_obj(); tm, _ = objs.make("data", ref, r, token=False, private=True)
+                        g.emit({"f": "C_CreateObject", "s": s3, "tmpl": tm, "out": ref, "lcl": "private"}, t)
+                    if r.random() < 0.4: g.emit({"f": "C_Logout", "s": s3, "lcl": True}, t)
+                    g.emit({"f": "C_CloseSession", "s": s3, "lcl": True}, t)
+            elif stratum == "close_open" and x < 0.7:
                 # (a) closing the last session of a slot || opening one on it: thread t owns an extra slot-local session it opens and closes
                 s2 = g.new_sess()
                 g.emit({"f": "C_OpenSession", "slot": on_tok(t), "flags": r.choice([RW, RO]), "out": s2}, t)
@@ -156,8 +177,42 @@ def gen(seed, tier, index):
     g.extra["stratum"] = stratum; g.extra["locking"] = locking; g.extra["nthreads"] = nth
     return g.plan()
 
+def prepare_park(plan, z):
+    """'park' policy: counting pass without pre-emption (yield points per op), then 1-3 LONG pre-emptions: a task that reaches the chosen yield point (a mutex
+    callback, a file operation) inside one of its calls of the concurrent phase stays off the processor until the other threads have passed n call boundaries -
+    the other threads complete whole calls inside one call of the parked thread (atomicity violations that need several foreign calls in the window)"""
+    import random
+    r = random.Random(plan["seed"] ^ 0x9A4C)
+    p1 = copy.deepcopy(plan); p1["knobs"]["policy"] = "call"; p1["knobs"]["switch_p"] = 0.0
+    res = z.run(p1)
+    ny = {}
+    for e in res.hist:
+        if e.get("e") == "ret" and "cs" not in e: ny[(e["t"], e["op"])] = e.get("ny", 0)
+    cands = []
+    for t, task in enumerate(plan["tasks"]):
+        nb = 0
+        for k, op in enumerate(task["ops"]):
+            if op.get("act") == "barrier": nb += 1; continue
+            if nb == 1 and op.get("f") and ny.get((t, k), 0) > 2: cands.append((t, k, ny[(t, k)]))
+    parks = []
+    prefer = [c for c in cands if plan["tasks"][c[0]]["ops"][c[1]].get("lcl") == "close_maybe_last"]
+    if prefer:
+        # every close that may be the token's last one gets its own long pre-emption at a random point inside it
+        for t, k, n in prefer: parks.append([t, k, r.randrange(1, n), r.choice([6, 7, 8, 9, 9, 12])])
+    elif cands:
+        # calls that tear something down are where a window matters most: half of the parks go there
+        closing = [c for c in cands if plan["tasks"][c[0]]["ops"][c[1]].get("f") in ("C_CloseSession", "C_Logout", "C_DestroyObject", "C_CloseAllSessions")]
+        for _ in range(r.choice([1, 1, 2, 3])):
+            t, k, n = r.choice(closing) if closing and r.random() < 0.6 else r.choice(cands)
+            parks.append([t, k, r.randrange(1, n), r.choice([3, 6, 6, 9, 9, 12, 18])])      # three call boundaries per foreign call (op boundary, invoke, return)
+    plan = copy.deepcopy(plan)
+    plan["knobs"]["parks"] = sorted(parks); plan["knobs"]["policy"] = "call"; plan["knobs"]["switch_p"] = r.choice([0.0, 0.1, 0.3]); plan["park_policy"] = True
+    return plan
+
 def prepare(plan, z):
     """'edge' policy: counting pass without pre-emption, then 1-30 pre-emption points at instrumented edges (DESIGN 2.3)"""
+    if plan["knobs"].get("policy") == "park" and plan["knobs"].get("parks") is None:
+        return prepare_park(plan, z)
     if plan["knobs"].get("policy") != "edge" or plan["knobs"].get("preempt") is not None:
         return plan
     import random
@@ -195,7 +250,8 @@ def check(plan, r):
     nsw = sum(sw.get(k, 0) for k in ("Y1", "Y2", "Y3", "Y4"))
     if nsw: st("runs_with_switches")
     st("edge_preemptions", sw.get("Y4", 0))
-    st("stratum_" + {"close_open": "close_open", "logout_private": "logout_private", "create_search": "create_search", "destroy_read": "destroy_read", "same_object": "same_object", "slots": "slots", "crypto": "crypto", "session_objects": "session_objects"}.get(stratum, "mixed"))
+    if plan.get("park_policy"): st("parks_fired", sw.get("forced", 0) and len(plan["knobs"].get("parks", [])))
+    st("stratum_" + {"close_open": "close_open", "logout_private": "logout_private", "create_search": "create_search", "destroy_read": "destroy_read", "same_object": "same_object", "slots": "slots", "crypto": "crypto", "session_objects": "session_objects", "last_close_login": "last_close_login"}.get(stratum, "mixed"))
     # (v) mutex discipline
     for m in hist.mons(r, "mutex_discipline"):
         viols.append(_v("C18.mutex_discipline", "the library misused a mutex it got from the application: %s (mutex #%s)" % (m["d"].get("what"), m["d"].get("id")), call="mutex", manifestation=m["d"].get("what"))); break
@@ -257,6 +313,7 @@ def check(plan, r):
         v["created_under_observation"] = bool(c is not None and any(o.tid != c.tid and o.f in ("@find", "@readout", "@readattrs") and o.inv < c.retn and c.inv < o.retn for o in evs))
     w = World()
     restarted = False
+    lcl_login = {}
     import hashlib
     for e in evs:
         P = w.proc(1)
@@ -269,6 +326,16 @@ def check(plan, r):
                 viols.append(_v("C18.unexplained", "thread %d: C_CreateObject of a public object in its own RW session returned %s - no sequential order explains that" % (e.tid, K.rvname(e.ret.get("rv"))), call=e.f, op=e.k, manifestation="spurious_failure", rv=K.rvname(e.ret.get("rv"))))
             if e.f in ("C_OpenSession", "C_CloseSession", "C_GetSessionInfo", "C_DigestInit", "C_DigestUpdate", "C_DigestFinal", "C_EncryptInit", "C_Encrypt", "C_SignInit", "C_Sign", "C_GenerateRandom", "C_GetSlotList", "C_GetTokenInfo", "C_GetMechanismList") and not e.ok:
                 viols.append(_v("C18.unexplained", "thread %d: %s on its own session returned %s - no sequential order explains that" % (e.tid, e.f, K.rvname(e.ret.get("rv"))), call=e.f, op=e.k, manifestation="spurious_failure", rv=K.rvname(e.ret.get("rv"))))
+        lcl = e.op.get("lcl")
+        if lcl:
+            st("last_close_login_ops")
+            if lcl == "login": lcl_login[e.tid] = e.ok
+            if lcl == "info" and e.ok and lcl_login.get(e.tid):
+                st("login_state_after_own_login_checked")
+                if e.ret.get("state") != K.CKS_RW_USER_FUNCTIONS:
+                    viols.append(_v("C18.login_lost", "thread %d logged in through its own open session (C_Login returned CKR_OK, nobody logged out, the session is still open) and C_GetSessionInfo reports state %s - no sequential order of the calls explains that" % (e.tid, e.ret.get("state")), call=e.f, op=e.k, manifestation="login_undone_by_concurrent_close"))
+            if lcl == "private" and lcl_login.get(e.tid) and not e.ok:
+                viols.append(_v("C18.login_lost", "thread %d logged in through its own open session and cannot create a private object there: %s - no sequential order of the calls explains that" % (e.tid, K.rvname(e.ret.get("rv"))), call=e.f, op=e.k, manifestation="login_undone_by_concurrent_close", rv=K.rvname(e.ret.get("rv"))))
         if e.f == "C_OpenSession" and not e.ok and s is None and not racy_run and "q" not in e.op:
             viols.append(_v("C18.unexplained", "thread %d: C_OpenSession returned %s - no sequential order explains that" % (e.tid, K.rvname(e.ret.get("rv"))), call=e.f, op=e.k, manifestation="spurious_failure", rv=K.rvname(e.ret.get("rv"))))
         if e.op.get("expect") and e.ok and "out" in e.ret:
